@@ -10,8 +10,12 @@
               fn emit_exc_handler_pops  `for _ in try_depth..<compiler>.try_depth { emit PopExcHandler }`
               fn return_statement     return_in_try_uses_jump_finally: `if <compiler>.in_try_block { emit JumpFinally }`
               fn emit_return          directly before `emit Return`, in both
-  vm.rs       fn unwind_stack         handling_exception := handler.has_catch_block()  (+ object.rs: the body of
-                                      has_catch_block is `self.finally_ip == self.catch_ip`) -> he_is_no_catch;
+  vm.rs       fn unwind_stack         how handling_exception is written -> unwind_he_mode: 0 `= handler.has_catch_block()`
+                                      (+ object.rs: has_catch_block is `finally_ip == catch_ip`, i.e. NO catch clause),
+                                      1 negated, 2 only `if <a catch clause takes it> { = false }`, 3 untouched;
+              raise sites             every caller of unwind_stack() besides end_finally_impl must be throw_impl,
+                                      try_handle_error or the Err arm of call_native; per site: is
+                                      `handling_exception = true` executed before the call?  (matters for modes 2, 3);
                                       pops the fiber's LAST handler; truncates stack and frames; jumps to catch_ip
               fn end_finally_impl     `if self.handling_exception { self.unwind_stack()?; }` then take_return_data
               fn jump_finally_impl    new ip = handler.finally_ip
@@ -152,9 +156,26 @@ def unwind_shape(toks, otoks):
     hb = texts(otoks, ho + 1, hc)
     body_eq = hb in (["self", ".", "finally_ip", "==", "self", ".", "catch_ip"], ["self", ".", "catch_ip", "==", "self", ".", "finally_ip"])
     body_ne = hb in (["self", ".", "finally_ip", "!=", "self", ".", "catch_ip"], ["self", ".", "catch_ip", "!=", "self", ".", "finally_ip"])
-    if not ((assign >= 0 or assign_neg >= 0) and (body_eq or body_ne)):
-        raise ValueError("unwind_stack / has_catch_block: shape not recognised")
-    he_is_no_catch = (assign >= 0) == body_eq
+    if not (body_eq or body_ne):
+        raise ValueError("has_catch_block: shape not recognised")
+    writes = find_all_seq(toks, ["handling_exception", "="], o, c)
+    # he mode: 0 assign (flag := no catch clause), 1 negated, 2 only cleared when a catch clause takes it, 3 untouched
+    if assign >= 0 or assign_neg >= 0:
+        if len(writes) != 1:
+            raise ValueError("unwind_stack: handling_exception written more than once")
+        he_mode = 0 if (assign >= 0) == body_eq else 1
+    elif not writes:
+        he_mode = 3
+    else:
+        # `if !handler.has_catch_block() { ... self.handling_exception = false; ... }`  (has_catch_block == no catch clause)
+        blk = if_body(toks, o, c, ["!", "handler", ".", "has_catch_block", "(", ")"])
+        blk_pos = if_body(toks, o, c, ["handler", ".", "has_catch_block", "(", ")"])
+        clears = find_all_seq(toks, ["handling_exception", "=", "false"], o, c)
+        if len(writes) == 1 and len(clears) == 1 and ((blk and body_eq and blk[0] < clears[0] < blk[1]) or
+                                                       (blk_pos and body_ne and blk_pos[0] < clears[0] < blk_pos[1])):
+            he_mode = 2
+        else:
+            raise ValueError("unwind_stack: the way handling_exception is written is not recognised")
     po, pc = fn_body(otoks, "pop_exc_handler")
     innermost = has(texts(otoks, po, pc), ["exc_handlers", ".", "pop", "(", ")"]) and has(t, ["pop_exc_handler", "(", ")"])
     trunc_frames = has(t, ["frames", ".", "truncate", "(", "handler", ".", "frame_count", ")"])
@@ -166,7 +187,7 @@ def unwind_shape(toks, otoks):
     qt = texts(otoks, qo, qc)
     records = has(qt, ["init_stack_size", ":", "self", ".", "stack", ".", "len", "(", ")", ","]) and \
         has(qt, ["frame_count", ":", "self", ".", "frames", ".", "len", "(", ")", ","])
-    return he_is_no_catch, innermost, trunc_frames and trunc_stack and to_catch and pushes_exc, records
+    return he_mode, innermost, trunc_frames and trunc_stack and to_catch and pushes_exc, records
 
 
 def end_finally_shape(toks):
@@ -186,6 +207,52 @@ def jump_finally_shape(toks):
     saves = has(t, ["return_ip", "=", "Some", "(", "self", ".", "ip", ")"]) and has(t, ["return_value", "=", "return_value"])
     pops = has(t, ["pop_exc_handler", "(", ")"])
     return to_fin and saves and pops
+
+
+def enclosing_fn(toks, pos):
+    j = pos
+    while j > 0:
+        if toks[j].text == "fn" and toks[j + 1].kind == "id":
+            bo, bc = body_after(toks, j)
+            if bo < pos < bc:
+                return toks[j + 1].text, bo, bc
+        j -= 1
+    return None, 0, 0
+
+
+def raise_sites(toks):
+    """every call of unwind_stack(): which function it is in and whether `handling_exception = true` is executed on the
+    way to it.  -> (throw_sets, vmfail_sets, nativefail_sets, native_error_poked); an unknown site is an error"""
+    res = {}
+    for pos in find_all_seq(toks, ["self", ".", "unwind_stack", "(", ")"]):
+        name, bo, bc = enclosing_fn(toks, pos)
+        if name == "end_finally_impl":
+            continue
+        if name not in ("throw_impl", "try_handle_error", "call_native") or name in res:
+            raise ValueError("unwind_stack() is called from an unexpected place: fn %s" % name)
+        lo = bo
+        poked = None
+        if name == "call_native":
+            # the Err arm: `Err ( <id> ) => { ... }` containing the call
+            arms = [j for j in find_all_seq(toks, ["Err", "("], bo, bc) if toks[j + 3].text == ")" and toks[j + 4].text == "=>"]
+            arm = None
+            for j in arms:
+                ao, ac = body_after(toks, j + 4)
+                if ao < pos < ac:
+                    arm = (ao, ac)
+            if arm is None:
+                raise ValueError("call_native: Err arm with unwind_stack() not found")
+            lo = arm[0]
+            poked = has(texts(toks, lo, pos), ["self", ".", "poke", "(", "0", ","])
+        sets = find_seq(toks, ["handling_exception", "=", "true"], lo, pos) >= 0
+        clears = find_seq(toks, ["handling_exception", "=", "false"], lo, pos) >= 0
+        if clears:
+            raise ValueError("%s clears handling_exception before unwinding" % name)
+        res[name] = (sets, poked)
+    if set(res) != {"throw_impl", "try_handle_error", "call_native"}:
+        raise ValueError("raise sites found: %s" % sorted(res))
+    pushed = has(texts(toks, *fn_body(toks, "try_handle_error")), ["self", ".", "push", "(", "Value", "::", "ObjInstance"])
+    return res["throw_impl"][0], res["try_handle_error"][0], res["call_native"][0], bool(res["call_native"][1]) and pushed
 
 
 def throw_shape(toks):
@@ -212,7 +279,8 @@ def gen_tryarms(man):
     c_ord, c_fin, c_scope = exit_shape(ct, "continue_statement")
     pops_loop = pops_loop_shape(ct) if (b_ord or c_ord) else True
     ret_jf = return_shape(ct, "return_statement") and return_shape(ct, "emit_return")
-    he_nc, innermost, unwind_ok, records = unwind_shape(vt, ot)
+    he_mode, innermost, unwind_ok, records = unwind_shape(vt, ot)
+    t_sets, v_sets, n_sets, err_placed = raise_sites(vt)
     rethrows, resumes = end_finally_shape(vt)
     jf_ok = jump_finally_shape(vt)
     thr_ok = throw_shape(vt)
@@ -230,7 +298,7 @@ def gen_tryarms(man):
         ("(* compiler.rs fn return_statement / fn emit_return *)", None),
         ("gen_return_in_try_uses_jump_finally", ret_jf),
         ("(* vm.rs fn unwind_stack, object.rs fn has_catch_block / pop_exc_handler / push_exc_handler *)", None),
-        ("gen_he_is_no_catch", he_nc),
+        ("gen_unwind_he_mode", he_mode),
         ("gen_unwind_pops_innermost", innermost),
         ("gen_unwind_truncates_and_jumps_to_catch", unwind_ok),
         ("gen_handler_records_heights", records),
@@ -240,14 +308,22 @@ def gen_tryarms(man):
         ("gen_jump_finally_targets_finally", jf_ok),
         ("gen_throw_unwinds", thr_ok),
         ("gen_push_handler_offsets", push_ok),
+        ("(* the raise sites = every caller of unwind_stack besides end_finally_impl: is handling_exception set first? *)", None),
+        ("gen_throw_sets_he", t_sets),
+        ("gen_vmfail_sets_he", v_sets),
+        ("gen_nativefail_sets_he", n_sets),
+        ("gen_error_pushed_by_vm_poked_by_native", err_placed),
     ]
     lines = ["(* GENERATED by translator/translate_c08.py from compiler.rs, vm.rs, object.rs - do not edit *)", ""]
     for name, v in vals:
         if v is None:
             lines.append(name)
         else:
-            lines.append("Definition %s : bool := %s." % (name, coq_bool(v)))
-    man["c08_tryarms"] = {n: bool(v) for n, v in vals if v is not None}
+            if isinstance(v, bool):
+                lines.append("Definition %s : bool := %s." % (name, coq_bool(v)))
+            else:
+                lines.append("Definition %s : nat := %d." % (name, v))
+    man["c08_tryarms"] = {n: v for n, v in vals if v is not None}
     return "\n".join(lines) + "\n"
 
 
